@@ -122,4 +122,23 @@ def unwrapRtx (rtx : Packet) (primarySsrc : UInt32) (primaryPt : UInt8) : Option
            payload := rest, padLen := 0 }
   | _ => none
 
+/-- `encode_osn` / `decode_osn` -/
+def encodeOsn (osn : UInt16) : Bytes := be16 osn
+
+def decodeOsn : Bytes → Option UInt16
+  | a :: b :: _ => some (rd16 a b)
+  | _ => none
+
+/-- `allocate_rtx_payload_type`: the first dynamic payload type (96..=127) not in `used` -/
+def allocRtxPtFrom (used : List UInt8) : Nat → Nat → Option UInt8
+  | _, 0 => none
+  | pt, fuel + 1 => if used.contains (u8 pt) then allocRtxPtFrom used (pt + 1) fuel else some (u8 pt)
+
+def allocRtxPt (used : List UInt8) : Option UInt8 := allocRtxPtFrom used c15RtxPtLo (c15RtxPtHi + 1 - c15RtxPtLo)
+
+/-- `is_rtcp`: second byte in the RTCP packet-type range -/
+def isRtcp : Bytes → Bool
+  | _ :: b :: _ => c15IsRtcpLo ≤ b.toNat && b.toNat ≤ c15IsRtcpHi
+  | _ => false
+
 end RtcModel.C15
